@@ -72,6 +72,7 @@ def run(chk: Check) -> None:
     read_only(chk)
     required_override(chk)
     defaults(chk)
+    typed_dynamic_leaf_checked(chk, 'DOM-verdict-not-dropped')
 
 
 # ---------------------------------------------------------------------- 1. no validation verdict is dropped
@@ -312,3 +313,32 @@ def defaults(chk: Check) -> None:
     loops = [l for l in ast.walk(pp.node) if isinstance(l, ast.For)]
     chk.ob('PROV-defaults', pp, len(loops) == 1 and norm(loops[0].iter) in ('self.items()', 'self._ports.items()', 'self.ports.items()'), 'every declared port is considered', kind='all-ports')
     chk.assumptions.append('which inputs are accepted and the exact content of `inputs` (the acceptance function over all specs) is not decided')
+
+
+def typed_dynamic_leaf_checked(chk: Check, rule: str) -> None:
+    """validate_dynamic_ports recurses into itself with each LEAF value as ``port_values``.  In a namespace with a
+    valid_type, a value that is not a dict must never be accepted without its type having been tested -- whatever its
+    truthiness (None, '', 0, [] are values too).  Decision table over (valid_type is None, value is a dict)."""
+    from ..decisions import paths_under
+    prog = chk.prog
+    vd = prog.func('ports.PortNamespace.validate_dynamic_ports')
+    ff = chk.ctx.facts.analyse(vd)
+    pv = vd.params[1]
+    type_tests = [n for n in ff.cfg.nodes if n.kind == 'test' and f'isinstance({pv}, self._valid_type)' in norm(ff.canon.expr(n.ast.test)).replace('self.valid_type', 'self._valid_type')]
+    chk.ob(rule, vd, bool(type_tests), 'dynamic values are tested against the namespace\'s valid_type', kind='type-test-present')
+    bad = []
+    n = 0
+    val = {'self._valid_type is None': False, 'self.valid_type is None': False, f'isinstance({pv}, dict)': False}
+    for path in paths_under(ff, val):
+        if path[-1] is not ff.cfg.exit:
+            continue
+        rets = [m for m in path if m.kind == 'return']
+        if not rets:
+            continue
+        n += 1
+        v = rets[-1].ast.value
+        accepted = v is None or (isinstance(v, ast.Constant) and v.value is None)
+        if accepted and not any(m in type_tests for m in path):
+            bad.append([m.lineno for m in path if m.kind in ('test', 'return')])
+    chk.ob(rule, vd, not bad and n >= 2, f'typed dynamic namespace, non-dict value: of {n} paths none accepts (returns None) without passing the isinstance(valid_type) test' +
+           (f'; accepting paths that skip it (test/return lines): {bad[:2]}' if bad else ''), kind='typed-leaf-always-checked')
